@@ -267,6 +267,25 @@ def validate(recs, tag):
     return fails, states
 
 
+def _real_run_calls(tier, insts, recs):
+    """Record real runs with the 'sub' event family and append every solver call they made."""
+    from . import lifecycle
+    U = corpus.enumerate_universe("Runs")
+    S = corpus.subsample(U, 240 if tier == "quick" else 1500, seed() + 5)
+    traces, _ = lifecycle.record(S, want=("sub",))
+    n = 0
+    for d, t in zip(S, traces):
+        if t.get("hdr") is None:
+            continue
+        for r in t.get("sub", []):
+            insts.append({"n": len(r["s"]), "g": [], "bp": ["run"], "hk": "run", "delta": 0, "sc": 0, "tcg": True,
+                          "rows": "run", "eqs": "run", "cauchy": [-1, 1], "improvable": r["improvable"],
+                          "descriptor": d})
+            recs.append((len(insts) - 1, r))
+            n += 1
+    return n
+
+
 def _shared(tier):
     """C15 and C16 are decided on the same calls: the (instances, outcomes, verdicts of TLC) are kept
     under out/cache keyed by the CONTENT of the tree under test, the specification, the tier and the
@@ -284,6 +303,9 @@ def _shared(tier):
         with open(path, "rb") as fh:
             return pickle.load(fh) + (True,)
     insts, recs, sizes = run_universe(tier)
+    # the same clauses on the calls the framework makes during real runs (arbitrary float data)
+    nsub = _real_run_calls(tier, insts, recs)
+    sizes["calls_in_recorded_runs"] = nsub
     fails, states = validate(recs, f"sub-{os.getpid()}")
     try:
         with open(path, "wb") as fh:
@@ -311,6 +333,8 @@ def check(pid, tier):
         for c in clauses:
             if c.startswith(pid):
                 small = {k: inst[k] for k in ("n", "g", "bp", "hk", "delta", "sc", "tcg", "rows", "eqs")}
+                if "descriptor" in inst:
+                    small = {"call_in_recorded_run": inst["descriptor"], "fn": r["fn"]}
                 if inst["hk"] == "explicit" or inst["rows"] == "explicit":
                     small.update({k: inst[k] for k in ("H", "bd", "c4", "unit", "xaub", "xbub2", "xaeq", "xbeq2") if k in inst})
                 v.add(c, json.dumps(small, sort_keys=True), {"instance": small, "call": {k: r[k] for k in ("fn", "s", "norm", "deltaHi", "q0Lo", "q0Hi", "qs", "dec", "cauchyLo", "exc")}})
@@ -322,7 +346,7 @@ def check(pid, tier):
            "universes": sizes, "calls_per_solver": nfn, "shared_with_sibling_check_via_tree_digest_cache": cached, "failed_clauses_all_properties": dict(cc),
            "with_exact_cauchy_oracle": sum(1 for i in insts if i["cauchy"][0] >= 0),
            "improvable_instances": sum(1 for i in insts if i["improvable"]),
-           "samples": [{k: insts[j][k] for k in ("n", "g", "bp", "hk", "delta", "sc", "tcg", "rows", "eqs", "cauchy", "improvable")} for j in (0, len(insts) // 2)]}
+           "samples": [{k: insts[j][k] for k in ("n", "g", "bp", "hk", "delta", "sc", "tcg", "rows", "eqs", "cauchy", "improvable")} for j in (0, 1)]}
     rc = v.finish()
     write_evidence(pid, tier, "model_checking", cov, time.time() - t0, len(v.violations),
                    ["instances, the sign-pattern predicate Improvable and the exact projected-gradient Cauchy decrease are computed by TLC (Subproblem.tla) on integer data",
